@@ -59,12 +59,13 @@ const WARMUPS: usize = 3;
 // narrow signatures (rule id + shape)
 const SIG_SHORT: &str = "C12.short/early-return";
 const SIG_NOT_FIRED: &str = "C12.short/timer-limit-not-fired";
+const SIG_TIMER_EARLY: &str = "C12.short/timer-fired-before-deadline";
 const SIG_LONG: &str = "C12.long/oversleep";
 const SIG_LONG_HELPER: &str = "C12.long/helper-event-not-dispatched";
 const SIG_ZERO: &str = "C12.zero/blocked";
 const SIG_NONE_RESCUED: &str = "C12.none/rescued";
 const SIG_NONE_EARLY: &str = "C12.none/returned-before-wakeup";
-const ALL_SIGS: [&str; 7] = [SIG_SHORT, SIG_NOT_FIRED, SIG_LONG, SIG_LONG_HELPER, SIG_ZERO, SIG_NONE_RESCUED, SIG_NONE_EARLY];
+const ALL_SIGS: [&str; 8] = [SIG_TIMER_EARLY, SIG_SHORT, SIG_NOT_FIRED, SIG_LONG, SIG_LONG_HELPER, SIG_ZERO, SIG_NONE_RESCUED, SIG_NONE_EARLY];
 
 // ------------------------------------------------------------------------------------------------
 // the case
@@ -939,6 +940,23 @@ fn judge(c: &Case, o: &Obs) -> Judgement {
             o.trace.iter().map(|(s, t)| (*s, ms(t.saturating_duration_since(o.t_before)))).collect::<Vec<_>>(),
         )
     };
+
+    // ---- a timer never fires before its deadline (whatever ended the wait): exact ----------------
+    for (src, t) in o.trace.iter().chain(o.follow.iter().flat_map(|f| f.2.iter())) {
+        if let Src::Timer(i) = src {
+            if let Some(Some(d)) = o.deadlines.get(*i) {
+                if *t < *d {
+                    j.hard.push(
+                        Violation::new(
+                            "C12.short",
+                            format!("timer {i} fired {:.3} ms before its deadline (the wait was ended by something else). {}", ms(*d - *t), describe()),
+                        )
+                        .with_sig(SIG_TIMER_EARLY),
+                    );
+                }
+            }
+        }
+    }
 
     // ---- lower bound: exact ------------------------------------------------------------------
     // `short`: the call returned before anything could legitimately end it; then a limiting timer
